@@ -21,10 +21,18 @@ def main(prop, tier):
              prof(82, nops=n, pool=40, maxlen=2, alpha=8, pddl=22, pput=35, prem=13, pget=15, pscan=10, piscan=5, bigvals=0),
              prof(83, nops=n, pool=15, pddl=35, pput=30, prem=10, pget=15, pscan=7, piscan=3, bigvals=0, longkeys=0)]
         seqtrace.run_map_profiles(chk, prop, P, ["C13"])
+        # concurrent creates / deletes / finds of the same names: exactly one winner = linearizable unique-insert / remove on the directory
+        from props import p_conc
+        chk.assumptions.append("concurrent DDL: sequentially consistent scheduler-driven executions (see C01)")
+        p_conc.run_conc(chk, prop, tier, pkey="C13c")
     else:
         n = 500 if q else 1500
         P = [prof(91, nops=n, pool=20, pddl=6, pput=45, prem=8, pget=25, pscan=10, piscan=6),
              prof(92, nops=n, pool=12, pddl=6, pput=50, prem=5, pget=25, pscan=8, piscan=6, longkeys=0),
              prof(93, nops=n, pool=30, maxlen=2, alpha=8, pddl=6, pput=45, prem=8, pget=25, pscan=10, piscan=6)]
         seqtrace.run_map_profiles(chk, prop, P, ["C15"])
+        # overwrite vs concurrent reader: values of different lengths carrying their id in every word; a torn / mixed value is unplaceable
+        from props import p_conc
+        chk.assumptions.append("atomic overwrite: sequentially consistent scheduler-driven executions (see C01)")
+        p_conc.run_conc(chk, prop, tier, pkey="C15c")
     return chk.finish()
